@@ -138,6 +138,10 @@ func runCheck(p *Prog, id, tier string) *Result {
 
 // sharedFuncs: rules that are functions of their own; the value runs the rule under the given id and returns its text.
 var sharedFuncs = map[string]func(p *Prog, r *Result, rule string) string{
+	"fn:emptyConstraint": func(p *Prog, r *Result, rule string) string {
+		checkConstraintTests(p, computeClosures(p), r, rule)
+		return "an empty constraint stays a constraint: the evaluators decide 'is there a constraining set' by a nil test of the parameter, never by its length"
+	},
 	"fn:discovery": func(p *Prog, r *Result, rule string) string {
 		checkDiscovery(p, r, rule, rule)
 		return "file discovery inverts the namer (finite evaluation over the name shapes the namer can produce: extensions with one or several dots, with and without the compressed suffix)"
@@ -163,7 +167,7 @@ var sharedRules = map[string][]share{
 		sh("C14", "C14.R1", "C01.S1", "a stored entry that aliases the caller's structure changes what reads report without any accepted write"),
 		sh("C14", "C14.R2", "C01.S2", "a read that hands out the stored entry lets the caller change what later reads report"),
 	},
-	"C02": {sh("C20", "C20.R5", "C02.S3", "a search resolves the object ids of the index entries through the id-to-uuid map: an id handed out twice after reopening makes an entry resolve to another object"), sh("C12", "C12.R5", "C02.S2", "And on an empty result must stay empty: a constraining set that is tested by its length instead of nil turns an empty constraint into no constraint and the search returns objects that do not satisfy the predicate"), sh("C14", "C14.R1", "C02.S1", "a search on an unindexed field evaluates the cached objects: an entry aliasing the caller's value makes it match on values that were never written")},
+	"C02": {sh("C20", "C20.R5", "C02.S3", "a search resolves the object ids of the index entries through the id-to-uuid map: an id handed out twice after reopening makes an entry resolve to another object"), sh("fn:emptyConstraint", "C12.R5", "C02.S2", "And on an empty result must stay empty: a constraining set that is tested by its length instead of nil turns an empty constraint into no constraint and the search returns objects that do not satisfy the predicate"), sh("C14", "C14.R1", "C02.S1", "a search on an unindexed field evaluates the cached objects: an entry aliasing the caller's value makes it match on values that were never written")},
 	"C04": {sh("fn:discovery", "C18.R4", "C04.S2", "reopening re-discovers the object files from their names: a discovery that mis-parses <uuid><extension>[.gz] reports a healthy collection as corrupted"), sh("C10", "C10.R7", "C04.S1", "a pending write that survives the deletion of its object is flushed later: the file of a deleted object reappears and the reopened handle sees a collection the closed one did not have", "")},
 	"C05": {sh("C11", "C11.R1", "C05.S2", "after a crash the reopened handle learns about a lost file or a lost index entry only through these two loops, under every configuration"), sh("C11", "C11.R6", "C05.S1", "reopening after a crash relies on the schema control to report every index/file divergence: a success path that skips an inclusion loop lets a stale entry survive unnoticed", "")},
 	"C06": {sh("C08", "C08.R3", "C06.S3", "the validation verdict of a write must still hold when the index is changed: if the handle lock is released in between, a write that is refused (unique violation) has already been half-applied by the time the error is returned"), sh("C11", "C11.R1", "C06.S2", "a write refused for a corrupted index must be refused with the error class the integrity control reports (wrapped with %w), otherwise callers and Repair cannot tell the refused write from an applied one"), sh("C05", "C05.R5", "C06.S1", "a write that fails after the temporary file exists leaves that file behind: if the integrity control takes it for the object's file, the failed write is silently half-applied", "")},
@@ -173,7 +177,7 @@ var sharedRules = map[string][]share{
 	"C16": {sh("C04", "C04.R4", "C16.S1", "case-insensitive fields are stored and indexed un-normalised when a published schema lacks its transformer list")},
 	"C07": {sh("C08", "C08.R3", "C07.S1", "validate-all then insert-all is atomic only if both loops run in one critical section: a writer admitted in between makes the insert loop fail half-way")},
 	"C08": {sh("C01", "C01.R8", "C08.S2", "two overlapping bulk deletes must end as one of their sequential orders does: the second one meets objects the first already removed and has to go on to the end of its iterator"), sh("C10", "C10.R5", "C08.S1", "the flusher's closed-handle test and its flush must be one critical section, otherwise the flush can run after a concurrent Close/Drop returned (check-then-act)")},
-	"C12": {sh("C17", "C17.R8", "C12.S4", "when a Create changes the cache setting the cache of the collection is dropped, otherwise reads under the new configuration answer from entries the old one left behind"), sh("C14", "C14.R4", "C12.S3", "with the cache (or asynchronous writes) on, reads come from clones: a shallow clone makes cached and uncached configurations answer differently after the caller edits its own value"), sh("C01", "C01.R7", "C12.S2", "the indexed search reports an unreadable object when its result is collected: the scan of an unindexed field has to report it too, not stop silently"), sh("C01", "C01.R2", "C12.S1", "under every cache / async valuation a delete evicts what that valuation caches, otherwise Exist/Get answers depend on the configuration")},
+	"C12": {sh("C02", "C02.R6", "C12.S5", "the indexed and the scanning evaluator must hand an empty result on in the same form: a Search that can hold a nil result slice makes And on an empty result run unconstrained on one path and not on the other", "non-nil"), sh("C17", "C17.R8", "C12.S4", "when a Create changes the cache setting the cache of the collection is dropped, otherwise reads under the new configuration answer from entries the old one left behind"), sh("C14", "C14.R4", "C12.S3", "with the cache (or asynchronous writes) on, reads come from clones: a shallow clone makes cached and uncached configurations answer differently after the caller edits its own value"), sh("C01", "C01.R7", "C12.S2", "the indexed search reports an unreadable object when its result is collected: the scan of an unindexed field has to report it too, not stop silently"), sh("C01", "C01.R2", "C12.S1", "under every cache / async valuation a delete evicts what that valuation caches, otherwise Exist/Get answers depend on the configuration")},
 	"C09": {sh("C13", "C13.R6", "C09.S1", "the bulk delete holds the handle write lock while it drains an iterator and continues after read errors: an iterator that does not advance on an error never reaches the end, the call never returns and every other call blocks")},
 	"C13": {sh("C11", "C11.R8", "C13.S4", "result order is the order of the index as loaded: an ordering control that skips entries lets an index file with an unordered tail be served"), sh("C08", "C08.R1", "C13.S3", "a walk over the sorted list of a field index must exclude writers: a concurrent insertion or deletion shifts the entries under it and the result is neither ordered nor complete", "fieldIndex."), sh("C11", "C11.R7", "C13.S2", "an index that failed its ordering control must never be served: result order is the order of the index"), sh("C02", "C02.R5", "C13.S1", "result order is the order of the live field index: a write through a result slice aliasing it re-orders or drops entries")},
 	"C18": {sh("C14", "C14.R7", "C18.S3", "with asynchronous writes the file is encoded from the cloned pending copy: a clone that turns empty containers into nil writes null where the object's JSON encoding has [] or {}"), sh("C17", "C17.R6", "C18.S2", "a stored schema whose extension / compression / descriptors are switched by a later Create no longer describes the files that are on disk"), sh("C16", "C16.R4", "C18.S1", "field descriptors are part of schema.json and are compared on Create: the tag words must produce the constraint flags the pinned release wrote")},
